@@ -326,6 +326,60 @@ def borrowed_and_factory_cases(ctx):
     return n
 
 
+def reads_change_nothing(ctx):
+    """every public READ (raw and scaled data, whole and windowed, every requested dtype, repr, equality, iteration over signals) between
+    the operations of a history: the list model is what was constructed / appended / loaded, whatever was looked at in between"""
+    import numpy as np
+    from nitypes.waveform import AnalogWaveform, ComplexWaveform, DigitalWaveform, LinearScaleMode, NO_SCALING, Spectrum
+    from nitypes.complex import ComplexInt32DType
+    from props.common import outcome
+    n = 0
+    combos = []
+    for dt_ in (np.int16, np.int32, np.float32, np.float64):
+        combos.append((AnalogWaveform, dt_, np.array([1, -2, 3], dt_), [np.float32, np.float64, None]))
+    for dt_ in (np.complex64, np.complex128):
+        combos.append((ComplexWaveform, dt_, np.array([1 + 2j, 3 - 4j, -5 + 6j], dt_), [np.complex64, np.complex128, None]))
+    ci = np.zeros(3, ComplexInt32DType); ci["real"] = [1, -2, 3]; ci["imag"] = [4, 5, -6]
+    combos.append((ComplexWaveform, ComplexInt32DType, ci, [np.complex64, np.complex128, None]))
+    for cls, dt_, src, reqs in combos:
+        for sm in (NO_SCALING, LinearScaleMode(2.0, 0.5), LinearScaleMode(-3, 0)):
+            for copy_flag in (True, False):
+                base = src.copy()
+                w = cls.from_array_1d(base, dt_, copy=copy_flag, scale_mode=sm)
+                model = [x for x in src.tolist()]
+                for step in range(3):
+                    for req in reqs:
+                        for win in ((), (1, 1), (0, 2)):
+                            outcome(lambda: w.get_scaled_data(*(([req] if req is not None else [None]) + list(win))) if win else (w.get_scaled_data(req) if req is not None else w.get_scaled_data()))
+                        outcome(lambda: w.scaled_data)
+                    outcome(lambda: repr(w)); outcome(lambda: w == w); outcome(lambda: w.get_raw_data(0, 1))
+                    got = w.raw_data.tolist()
+                    n += 1
+                    ctx.case(("reads", cls.__name__, str(np.dtype(dt_)), repr(sm)[:40], copy_flag, step))
+                    ctx.count("reads-change-nothing", cls.__name__)
+                    if got != model or (not copy_flag and base.tolist() != model[:len(base)]):
+                        ctx.violation(what="reading data changed the samples", cls=cls.__name__, dtype=str(np.dtype(dt_)), scale_mode=repr(sm)[:60], copy=copy_flag,
+                                      after_reads=step + 1, observed=str(got)[:200], required=str(model)[:200])
+                        break
+                    extra = src[:2].copy()
+                    w.append(extra)
+                    model = model + extra.tolist()
+                else:
+                    continue
+                break
+    for cls, mk in ((DigitalWaveform, lambda: DigitalWaveform.from_lines(np.array([[0, 1], [1, 0]], np.uint8))), (Spectrum, lambda: Spectrum.from_array_1d(np.array([1.0, 2.0]), np.float64))):
+        w = mk()
+        model = w.data.tolist()
+        for _ in range(2):
+            outcome(lambda: repr(w)); outcome(lambda: w == mk()); outcome(lambda: w.get_data(0, 1))
+            if hasattr(w, "signals"):
+                outcome(lambda: [s_.data.tolist() for s_ in w.signals]); outcome(lambda: w.test(mk()))
+        n += 1
+        if w.data.tolist() != model:
+            ctx.violation(what="reading data changed the samples", cls=cls.__name__, observed=str(w.data.tolist()), required=str(model))
+    return n
+
+
 def self_aliasing_appends(ctx):
     """append() of an array that is (a view of) the receiver's own samples or of the caller's array that backs it: the list model
     says `samples += the values the argument had when the call was made`, whether or not the buffer has to grow for them"""
@@ -413,6 +467,7 @@ def run(ctx):
     ctx.extra["histories"] = n_hist + n_valid
     ctx.extra["borrowed_and_factory_calls"] = borrowed_and_factory_cases(ctx)
     ctx.extra["self_aliasing_appends"] = self_aliasing_appends(ctx)
+    ctx.extra["reads_change_nothing"] = reads_change_nothing(ctx)
     ctx.extra["narrow_scalar_calls"] = H.narrow_scalar_cases(ctx, lambda info, obs, req: ctx.violation(what="a call with narrow NumPy integer scalars differs from the call with the same Python ints", observed=obs, required=req, **info))
     ctx.extra["model_lines_compared"] = H.compare_with_model(ctx, world)
     for line, exp in list(zip(world.lines, world.expect))[5:400:60]:
